@@ -179,7 +179,10 @@ func (n *DLQHandlerNode) Nack(msg *Message, nackMetadata NackMetadata) error {
 	writeTime := time.Now()
 	err = n.Handler.Write(msg.Ctx, dlqRecord)
 	if err != nil {
-		return err
+		// The DLQ write failed, we need to stop the pipeline for good, as
+		// recovering would only repeat the failing write in an endless loop of
+		// restarts (same as the v2 engine does).
+		return cerrors.FatalError(err)
 	}
 	n.Timer.Update(time.Since(writeTime))
 	n.Histogram.Observe(dlqRecord)
